@@ -147,12 +147,15 @@ Section NestClass.
   (* `range(3)`: a literal trip count *)
   Definition is_int_lit (e : expr) : bool := match e with ELit (LInt _) => true | _ => false end.
 
-  (* side conditions on the sets the generated analysis computes for a loop; iv = the Python name the iteration
-     counter is bound to in the body scope (the loop variable; "infinite_loop" for `while`) *)
-  Definition loop_side (iv : string) (is_while : bool) (body : list stmt) (lo_s L Lb : sset) : bool :=
+  (* side conditions on the sets the generated analysis computes for a loop: L = what is live before the loop
+     (live_stmt), Lf = what is live at the end of the body (loop_fixpoint: the liveness the converter uses inside the
+     body), Lb = what is live at the start of the body; iv = the Python name the iteration counter is bound to in the
+     body scope (the loop variable; "infinite_loop" for `while`) *)
+  Definition loop_side (iv : string) (is_while : bool) (body : list stmt) (lo_s L Lf Lb : sset) : bool :=
     let A := assigned_block cic body in
     let S := sinter A (sunion (exposed_uses cic body) lo_s) in
-    ssubset S L &&                                          (* the loop state is live before the loop *)
+    ssubset Lf L &&                                         (* what is live at the end of the body is live before the loop *)
+    ssubset S Lf &&                                         (* the loop state is live at the end of the body (hence before the loop) *)
     ssubset (sdiff Lb (iv :: S)) (sdiff L A) &&             (* what the body reads and is not state comes from outside, unchanged *)
     ssubset (sdiff lo_s (iv :: S)) L &&                     (* what is live after the loop and not state was live before it *)
     negb (mem iv lo_s) && negb (mem iv A) &&                (* the counter is not used after the loop, not assigned in it *)
@@ -193,23 +196,23 @@ Section NestClass.
     | SIf c t f => match cic c with None => rhs_ok globals c | Some _ => true end && rec t lo_s && rec f lo_s
     | SFor i b body =>
       (rhs_ok globals b || is_int_lit b) &&
-      match live_stmt cic afuel (SFor i b body) lo_s with
-      | None => false
-      | Some L =>
-        match live_block cic afuel body L with
+      match live_stmt cic afuel (SFor i b body) lo_s, loop_fixpoint cic afuel (SFor i b body) lo_s with
+      | Some L, Some Lf =>
+        match live_block cic afuel body Lf with
         | None => false
-        | Some Lb => ssubset (used_vars b) L && loop_side i false body lo_s L Lb && body_ok (body_sok rec) false body L
+        | Some Lb => ssubset (used_vars b) L && loop_side i false body lo_s L Lf Lb && body_ok (body_sok rec) false body Lf
         end
+      | _, _ => false
       end
     | SWhile c body =>
-      match live_stmt cic afuel (SWhile c body) lo_s with
-      | None => false
-      | Some L =>
-        match live_block cic afuel body L with
+      match live_stmt cic afuel (SWhile c body) lo_s, loop_fixpoint cic afuel (SWhile c body) lo_s with
+      | Some L, Some Lf =>
+        match live_block cic afuel body Lf with
         | None => false
-        | Some Lb => mem c L && is_none (lookup_assoc c globals) && loop_side "infinite_loop" true body lo_s L Lb &&
-                     body_ok (body_sok rec) true body L
+        | Some Lb => mem c Lf && is_none (lookup_assoc c globals) && loop_side "infinite_loop" true body lo_s L Lf Lb &&
+                     body_ok (body_sok rec) true body Lf
         end
+      | _, _ => false
       end
     | _ => false
     end.
@@ -234,7 +237,4 @@ Section NestClass.
   (* a function body: `pre` followed by `tl` (the return), nested blocks to depth n *)
   Definition pre_ok (n : nat) (pre tl : list stmt) (lo : sset) : bool := blocks_go (stmt_ok (block_ok n)) pre tl lo.
 
-  Lemma live_while_fixpoint : forall c body lo_s,
-    live_stmt cic afuel (SWhile c body) lo_s = loop_fixpoint cic afuel (SWhile c body) lo_s.
-  Proof. reflexivity. Qed.
 End NestClass.
